@@ -1,5 +1,5 @@
 From Coq Require Import ZArith List.
 From Cspuz Require Import Lib.PyErr Core.Expr Core.Program Graph.GraphModel Graph.Acyclic.
-Theorem acyclic_zero_vertices : forall st flags g, nv g = 0 -> post_acyclic st flags g = Err ValueError.
+Theorem acyclic_zero_vertices : forall st flags g, nv g = 0%nat -> post_acyclic st flags g = Err ValueError.
 Proof. intros st flags g H. unfold post_acyclic. rewrite H. reflexivity. Qed.
 Print Assumptions acyclic_zero_vertices.
